@@ -34,6 +34,10 @@ class Obligation:
         return f"{self.loc} {self.oid} {self.func}: {self.construct} -- {self.verdict}" + (f": {self.detail}" if self.detail else "")
 
 
+import re as _re
+_SPLICE_SUFFIX = _re.compile(r"§[A-Za-z_][A-Za-z_0-9]*")
+
+
 class Collector:
     """Per-rule obligation collector with convenience constructors."""
 
@@ -43,6 +47,9 @@ class Collector:
         self.info: Dict[str, Any] = {}
 
     def add(self, sub: str, func: str, construct: str, verdict: str, detail: str = "", loc: str = "", nontrivial: bool = True) -> Obligation:
+        # names of locals of spliced helpers carry a `§helper` suffix: not part of an obligation's identity
+        construct = _SPLICE_SUFFIX.sub("", construct)
+        detail = _SPLICE_SUFFIX.sub("", detail)
         o = Obligation(self.rule, f"{self.rule}/{sub}" if sub else self.rule, func, construct, verdict, detail, loc, nontrivial)
         self.obs.append(o)
         return o
